@@ -60,6 +60,27 @@ class Lg:
 class LgStm(Lg, Stm):
     def ls_only(self):
         return self
+class Scratch:
+    pass
+class Nd:
+    kind = 'n'
+    def __init__(self, other=None):
+        holder = Scratch()
+        holder.last_added = self
+        self.label = 'l'
+        self.kids = [other]
+    def adopt(self, child):
+        note = Scratch()
+        note.parent_node = self
+        self.kids.append(child)
+        self.adopted = True
+        return self
+    def rename(self, label):
+        self.label = label
+        other = Nd()
+        other.copied_from = self
+        self.renamed = 1
+        return self
 def ident(p):
     return p
 def second(p, q):
@@ -113,7 +134,7 @@ def doc_typed(p):
     return C()
 '''
 
-ATOMS = ["A()", "B()", "C()", "LgStm()", "Stm()", "1", "'s'", "2.5", "A(1)", "B('t')", "[1, 2]", "{'k': 1}",
+ATOMS = ["A()", "B()", "C()", "LgStm()", "Stm()", "Nd()", "1", "'s'", "2.5", "A(1)", "B('t')", "[1, 2]", "{'k': 1}",
          "(1, 's')", "None", "True"]
 
 # (tag, template, merges?)   {v} new variable, {x} {y} inputs, {n} serial
@@ -191,6 +212,10 @@ FORMS = [
     ('cls_ref', '{v} = B', False),
     ('fn_ref', '{v} = ident', False),
     ('bound', '{v} = A().me', False),
+    ('nd_adopt', '{v} = Nd({x}).adopt({y})', False),
+    ('nd_rename', '{v} = Nd().rename({x})', False),
+    ('nd_both', '{v} = Nd({x}).adopt({y}).rename("t")', False),
+    ('nd_flag', '{v} = Nd({x}).adopt({y}).adopted', False),
 ]
 
 # forms admitted to the "exactly that class and nothing else" clause: calibrated silent on the
@@ -233,7 +258,7 @@ class Builder:
         for _ in range(nstmts):
             self.stmt()
         if self.multi:
-            head = self.r.choice(['from lib import *', 'from lib import A, B, C, LgStm, Stm, gen_loop, relay, ident, second, pair, '
+            head = self.r.choice(['from lib import *', 'from lib import A, B, C, Nd, LgStm, Stm, gen_loop, relay, ident, second, pair, '
                                   'dflt, star, kwv, kwonly, closure, gen_two, deco_ident, deco2_ident, '
                                   'narrow, annotated, doc_typed'])
             files = {'lib.py': LIB, 'main.py': head + '\n' + '\n'.join(self.lines) + '\n'}
